@@ -283,6 +283,23 @@ HEADER_NOISE = [b'Server: x', b'X-A: 1', b'X-A: 2', b'Set-Cookie: a=b; c', b'Dat
 WS_LINES = [b' ', b'\t', b'  \t ', b'\x0b', b'\x0c ', b' \r', b' \x0b\t']
 
 
+def raw_deflate(data):
+    c = zlib.compressobj(9, zlib.DEFLATED, -15)
+    return c.compress(data) + c.flush()
+
+
+def fold_field(rng, name, colon, value, eol):
+    """A framing field, sometimes written with obs-fold (RFC 7230 3.2.4): the value, or its
+    tail, on a continuation line that starts with SP or HTAB."""
+    r = rng.random()
+    if r < 0.10:
+        return name + b':' + eol + rng.choice([b' ', b'\t', b'\t', b'\t ', b'  ']) + value
+    if r < 0.16 and b',' in value:
+        k = value.find(b',') + 1        # fold between list elements only: unfolding inserts a space
+        return name + colon + value[:k] + eol + rng.choice([b' ', b'\t', b'\t']) + value[k:]
+    return name + colon + value
+
+
 def gen_message(rng, allow_malformed=True):
     """One response message.  `wf` = within the adjudicated domain where the harness
     knows what the server meant (status code, framing, payload, message length)."""
@@ -323,21 +340,23 @@ def gen_message(rng, allow_malformed=True):
     payload = rand_body(rng)
     m.coding = None
     if rng.random() < 0.15 and not nobody:
-        m.coding = rng.choice(['gzip', 'deflate', 'gzip-bad'])
+        m.coding = rng.choice(['gzip', 'deflate', 'raw-deflate', 'gzip-bad'])
         plain = payload
         if m.coding == 'gzip':
             payload = gzip_mod.compress(plain)
         elif m.coding == 'deflate':
             payload = zlib.compress(plain)
+        elif m.coding == 'raw-deflate':
+            payload = raw_deflate(plain)
         else:
             payload = b'\x1f\x8b' + plain
-        headers.append(spell(rng, b'Content-Encoding') + b': ' + rng.choice([b'gzip', b'GZip']) if m.coding != 'deflate'
-                       else spell(rng, b'Content-Encoding') + b': deflate')
+        headers.append(spell(rng, b'Content-Encoding') + b': ' + rng.choice([b'gzip', b'GZip']) if m.coding in ('gzip', 'gzip-bad')
+                       else spell(rng, b'Content-Encoding') + b': ' + rng.choice([b'deflate', b'Deflate']))
     framing = rng.choice(['length', 'length', 'length', 'chunked', 'chunked', 'chunked', 'close', 'badlength', 'both'])
     m.conn_close = None
     r = rng.random()
     if r < 0.15:
-        headers.append(spell(rng, b'Connection') + b': ' + rng.choice([b'close', b'Close', b'CLOSE']))
+        headers.append(fold_field(rng, spell(rng, b'Connection'), b': ', rng.choice([b'close', b'Close', b'CLOSE']), eol))
         m.conn_close = True
     elif r < 0.25:
         headers.append(b'Connection: ' + rng.choice([b'keep-alive', b'Keep-Alive', b'keepalive']))
@@ -350,7 +369,7 @@ def gen_message(rng, allow_malformed=True):
         cl = b'%d' % len(payload)
         if rng.random() < 0.1:
             cl = rng.choice([b'+', b'0', b'00']) + cl
-        headers.append(spell(rng, b'Content-Length') + colon + cl)
+        headers.append(fold_field(rng, spell(rng, b'Content-Length'), colon, cl, eol))
         if rng.random() < 0.06:
             headers.append(b'Content-Length: %d' % (len(payload) + 7))  # duplicate, the first one counts
             m.wf = False
@@ -360,7 +379,7 @@ def gen_message(rng, allow_malformed=True):
                          b'identity,chunked', b' chunked ', b'x , Chunked'])
         if te in (b'gzip, chunked', b'x , Chunked', b'identity,chunked'):
             m.tags.append('te-list')
-        headers.append(spell(rng, b'Transfer-Encoding') + colon + te)
+        headers.append(fold_field(rng, spell(rng, b'Transfer-Encoding'), colon, te, eol))
         framed = chunk_encode(rng, payload)
     elif framing == 'both':
         headers.append(b'Content-Length: %d' % rng.choice([0, 3, len(payload), 10 ** 6]))
@@ -530,6 +549,8 @@ def one_shot_decode(coding, payload):
             return gzip_mod.decompress(payload)
         if coding == 'deflate':
             return zlib.decompress(payload)
+        if coding == 'raw-deflate':
+            return zlib.decompress(payload, -15)
     except Exception:
         return None
     return payload
